@@ -357,3 +357,22 @@ func Unwrap2(f *ssa.Function) *ssa.Function {
 	}
 	return f
 }
+
+// PkgPathOf returns the import path of the package declaring fn (for instantiations and
+// closures: of their origin / parent).
+func PkgPathOf(fn *ssa.Function) string {
+	for f := fn; f != nil; {
+		if f.Pkg != nil {
+			return f.Pkg.Pkg.Path()
+		}
+		if o := f.Origin(); o != nil && o != f {
+			f = o
+			continue
+		}
+		f = f.Parent()
+	}
+	if fn != nil && fn.Object() != nil && fn.Object().Pkg() != nil {
+		return fn.Object().Pkg().Path()
+	}
+	return ""
+}
